@@ -126,13 +126,20 @@ func (w *world) names(l []common.Address) []string {
 }
 
 // drawSets plans the validator lists of the chain.
-func drawSets(t *rapid.T, keys []bscsim.Key) [][]common.Address {
+// The "pulse" plan (1 case in 8) is large list -> single validator -> the large list again, which with the
+// shortest epoch makes the collapse and the re-growth happen on consecutive blocks.
+func drawSets(t *rapid.T, keys []bscsim.Key) ([][]common.Address, bool) {
 	all := make([]int, poolSize)
 	for i := range all {
 		all[i] = i
 	}
 	perm := rapid.Permutation(all).Draw(t, "pool_order")
 	n0 := rapid.IntRange(1, 9).Draw(t, "N0")
+	pulse := rapid.IntRange(0, 7).Draw(t, "pulse_plan") == 0
+	if pulse {
+		n0 = rapid.IntRange(6, 9).Draw(t, "pulse_N0")
+	}
+	first := append([]int{}, perm[:n0]...)
 	cur := append([]int{}, perm[:n0]...)
 	toAddrs := func(ix []int, sorted bool) []common.Address {
 		var l []common.Address
@@ -158,6 +165,13 @@ func drawSets(t *rapid.T, keys []bscsim.Key) [][]common.Address {
 		}
 		kind := rapid.SampledFrom([]string{"same", "grow", "grow", "shrink", "shrink", "replace", "replace", "fresh", "to_one"}).Draw(t, fmt.Sprintf("set%d_kind", s))
 		next := append([]int{}, cur...)
+		if pulse && s == 1 {
+			kind = "to_one"
+		}
+		if pulse && s == 2 {
+			kind = "pulse_back"
+			next = append([]int{}, first...)
+		}
 		switch kind {
 		case "grow":
 			if len(cur) < 9 {
@@ -196,7 +210,7 @@ func drawSets(t *rapid.T, keys []bscsim.Key) [][]common.Address {
 		sets = append(sets, toAddrs(next, sorted))
 		cur = next
 	}
-	return sets
+	return sets, pulse
 }
 
 func (w *world) listFor(n uint64) []common.Address {
@@ -897,7 +911,8 @@ func runChain(t *rapid.T, r *rec.Recorder) {
 		w.keys = append(w.keys, k)
 		w.idx[k.Addr] = i
 	}
-	w.sets = drawSets(t, w.keys)
+	var pulse bool
+	w.sets, pulse = drawSets(t, w.keys)
 	maxHalf := 0
 	for _, s := range w.sets {
 		if len(s)/2 > maxHalf {
@@ -905,6 +920,12 @@ func runChain(t *rapid.T, r *rec.Recorder) {
 		}
 	}
 	E := uint64(rapid.IntRange(maxHalf+1, 12).Draw(t, "E"))
+	if pulse {
+		r.Label("case:pulse_plan")
+		if rapid.Bool().Draw(t, "pulse_short_epoch") {
+			E = uint64(maxHalf + 1)
+		}
+	}
 	w.chainID = rapid.SampledFrom([]uint64{56, 97, 1, 714, 1<<32 + 5, 1<<62 + 1}).Draw(t, "chain_id")
 
 	// genesis height: 0, a low epoch multiple, or a high one; rarely a non-epoch height
